@@ -122,15 +122,16 @@ func readerWork(r *bluge.Reader, who int) error {
 }
 
 type scen struct {
-	opts    harness.Opts
-	pre     []harness.BatchSpec
-	clients [][]harness.BatchSpec
-	readers int  // threads that take a reader from the writer and use it
-	shared  int  // threads searching one shared reader
-	closer  bool // Close is issued by its own thread as soon as the clients returned
-	stats   bool // a thread calls index.Writer.Stats() (index-level API)
-	reopen  bool
-	prelife []harness.BatchSpec // a first life (no merging) that leaves these batches as separate segment files
+	opts      harness.Opts
+	pre       []harness.BatchSpec
+	clients   [][]harness.BatchSpec
+	readers   int  // threads that take a reader from the writer and use it
+	shared    int  // threads searching one shared reader
+	closer    bool // Close is issued by its own thread as soon as the clients returned
+	stats     bool // a thread calls index.Writer.Stats() (index-level API)
+	callbacks bool // every client batch carries a persisted-callback
+	reopen    bool
+	prelife   []harness.BatchSpec // a first life (no merging) that leaves these batches as separate segment files
 }
 
 func U(id, v string) harness.Op { return harness.Op{Kind: 'U', ID: id, Ver: v} }
@@ -141,9 +142,9 @@ type B = harness.BatchSpec
 
 var scens = map[string]scen{
 	"rw":      {clients: [][]B{{{U("a", "1")}}, {{U("a", "2"), D("b")}}}, pre: []B{{I("a", "0"), I("b", "0")}}, readers: 1, reopen: true},
-	"rw-nap":  {opts: harness.Opts{NapMS: 5}, clients: [][]B{{{U("a", "1")}}, {{U("b", "2")}}}, readers: 1, reopen: true},
+	"rw-nap":  {opts: harness.Opts{NapMS: 5}, clients: [][]B{{{U("a", "1")}}, {{U("b", "2")}}}, readers: 1, reopen: true, callbacks: true},
 	"search":  {pre: []B{{I("a", "0"), I("b", "0")}, {U("a", "1")}}, shared: 2},
-	"close":   {opts: harness.Opts{Unsafe: true, EagerMerge: true}, clients: [][]B{{{I("a", "1")}, {I("b", "1")}, {U("a", "2")}}}, closer: true, readers: 1},
+	"close":   {opts: harness.Opts{Unsafe: true, EagerMerge: true}, clients: [][]B{{{I("a", "1")}, {I("b", "1")}, {U("a", "2")}}}, closer: true, readers: 1, callbacks: true},
 	"close-s": {opts: harness.Opts{EagerMerge: true}, clients: [][]B{{{I("a", "1")}, {I("b", "1")}}, {{I("c", "1")}}}, closer: true, reopen: true},
 	// the persister pauses for the merger whenever one file is on disk: Close arrives during that pause
 	"close-pause":   {opts: harness.Opts{EagerMerge: true, NapUnderFiles: 1}, clients: [][]B{{{I("a", "1")}, {I("b", "1")}, {U("a", "2")}}}, closer: true, reopen: true},
@@ -208,7 +209,12 @@ func run(opts verifmc.Options, param string) (*verifmc.Sched, *explore.Result) {
 				defer clients.Done()
 				defer users.Done()
 				for k, b := range batches {
-					if err := w.Batch(harness.MakeBatch(b)); err != nil {
+					bt := harness.MakeBatch(b)
+					if sc.callbacks {
+						// persisted-callbacks: the list the introducer appends to is handed to the persister
+						bt.SetPersistedCallback(func(error) {})
+					}
+					if err := w.Batch(bt); err != nil {
 						errs[me] = "batch: " + err.Error()
 						return
 					}
